@@ -77,4 +77,40 @@ SortedIdx(n, Less(_, _)) ==
 CanonOrder(env, comps) ==
   SortedIdx(Len(comps), LAMBDA i, j : TagLess(MinTag(OuterTags(env, comps[i].t)),
                                                MinTag(OuterTags(env, comps[j].t))))
+
+\* ---- legality: the distinctness rules C11 names (on a normalised environment) ---------------
+Disjoint(S, T) == S \cap T = {}
+PairwiseDistinct(env, ts) == \A i, j \in DOMAIN ts : i < j => Disjoint(OuterTags(env, ts[i]), OuterTags(env, ts[j]))
+\* X.680 25.6 / 25.6.1: within every run of consecutive OPTIONAL / DEFAULT components together with the
+\* component that follows the run (if any), the outermost tags are pairwise distinct
+SeqTagsOK(env, T) ==
+  LET cs == AllComps(T)
+      optional(i) == cs[i].o # "M" \/ i > Len(T.comps)
+  IN \A i, j \in DOMAIN cs :
+        (i < j /\ \A k \in i..(j - 1) : optional(k)) => Disjoint(OuterTags(env, cs[i].t), OuterTags(env, cs[j].t))
+IdentsOK(T) == LET cs == AllComps(T) IN \A i, j \in DOMAIN cs : i < j => cs[i].n # cs[j].n
+EnumOK(T) == LET it == T.root \o T.adds IN \A i, j \in DOMAIN it : i < j => it[i].n # it[j].n /\ it[i].v # it[j].v
+RECURSIVE RefsOK(_, _)
+RefsOK(names, T) ==
+  CASE T.k = "REF" -> T.n \in names
+    [] T.k = "TAGGED" -> RefsOK(names, T.t)
+    [] T.k \in {"SEQUENCE", "SET", "CHOICE"} -> \A i \in DOMAIN AllComps(T) : RefsOK(names, AllComps(T)[i].t)
+    [] T.k \in {"SEQOF", "SETOF"} -> RefsOK(names, T.t)
+    [] OTHER -> TRUE
+RECURSIVE TypeLegal(_, _)
+TypeLegal(env, T) ==
+  CASE T.k = "TAGGED" -> TypeLegal(env, T.t)
+    [] T.k = "ENUM" -> EnumOK(T)
+    [] T.k = "CHOICE" -> IdentsOK(T) /\ PairwiseDistinct(env, [i \in DOMAIN AllComps(T) |-> AllComps(T)[i].t])
+                         /\ \A i \in DOMAIN AllComps(T) : TypeLegal(env, AllComps(T)[i].t)
+    [] T.k = "SET" -> IdentsOK(T) /\ PairwiseDistinct(env, [i \in DOMAIN AllComps(T) |-> AllComps(T)[i].t])
+                      /\ \A i \in DOMAIN AllComps(T) : TypeLegal(env, AllComps(T)[i].t)
+    [] T.k = "SEQUENCE" -> IdentsOK(T) /\ SeqTagsOK(env, T) /\ \A i \in DOMAIN AllComps(T) : TypeLegal(env, AllComps(T)[i].t)
+    [] T.k \in {"SEQOF", "SETOF"} -> TypeLegal(env, T.t)
+    [] OTHER -> TRUE
+\* a module is legal iff every reference resolves and every definition satisfies the rules
+Legal(mod) ==
+  LET raw == EnvOf(mod) names == DOMAIN raw
+  IN /\ \A n \in names : RefsOK(names, raw[n])
+     /\ (LET env == NormEnv(mod) IN \A n \in names : TypeLegal(env, env[n]))
 =============================================================================
